@@ -310,6 +310,51 @@ func c07Recover(c *c07Crash, rep *kernel.Report) (*Fail, error) {
 		if rs[1].Err != "" || len(rs[1].Errors) > 0 {
 			return nil, fail("query-error"+stage, "stats count: "+rs[1].Err+strings.Join(rs[1].Errors, ";")), nil
 		}
+		// every visible event is also found by a search whose time range is just its own timestamp (the recovered
+		// segment metadata - time range, block summaries - must cover what the segment holds)
+		var wqs []Q
+		var wids []string
+		for _, id := range sortedKeys(got) {
+			if m, ok := c.model[id]; ok {
+				wqs = append(wqs, Q{Index: allIdx, Text: "*", Start: m.TS, End: m.TS, Size: 100})
+				wids = append(wids, id)
+			}
+		}
+		if len(wqs) > 0 {
+			wrs, err := runQueries(w, wqs)
+			if err != nil {
+				if d, ok := err.(*kernel.Died); ok {
+					return nil, fail("query-died"+stage, d.Exit+" "+d.Frame+"\n"+trunc(d.Stderr, 2000)), nil
+				}
+				return nil, nil, err
+			}
+			for i, wr := range wrs {
+				found := false
+				for _, rec := range wr.Records {
+					if id, _ := rec["id"].(string); id == wids[i] {
+						found = true
+					}
+				}
+				if !found {
+					inflight := false
+					for _, f := range c.InFlight {
+						if f == wids[i] {
+							inflight = true
+						}
+					}
+					cls := "completed-flush"
+					if inflight {
+						cls = "flush-in-progress"
+					}
+					what := fmt.Sprintf("event %s (timestamp T0%+d) is returned by the search over the whole range but not by the search over [T0%+d,T0%+d] (err=%q %v)", wids[i], c.model[wids[i]].TS-T0, c.model[wids[i]].TS-T0, c.model[wids[i]].TS-T0, wr.Err, wr.Errors)
+					if inflight && stage == "" {
+						// the known window of a later flush (block summary appended, .sfm not yet replaced): one class
+						return nil, &Fail{FP: "C07/flush-in-progress-visible-to-the-whole-range-search-not-to-its-time-window", What: fmt.Sprintf("history %q crash after %d fs operations (last: %s): %s", c.History.Name, c.Cut, c.LastOp, what)}, nil
+					}
+					return nil, fail("visible-event-not-found-by-its-time-window/"+cls+stage, fmt.Sprintf("event %s (timestamp T0%+d) is returned by the search over the whole range but not by the search over [T0%+d,T0%+d] (err=%q %v)", wids[i], c.model[wids[i]].TS-T0, c.model[wids[i]].TS-T0, c.model[wids[i]].TS-T0, wr.Err, wr.Errors)), nil
+				}
+			}
+		}
 		// the pre-computed segment statistics answer without errors and agree with what the search returns
 		if rs[2].Err != "" || len(rs[2].Errors) > 0 {
 			return nil, fail("stats-error"+stage, "`* | stats count(n), sum(n)` (answered from the segment statistics files): "+rs[2].Err+strings.Join(rs[2].Errors, ";")), nil
